@@ -624,9 +624,19 @@ func TestC17HandlerFormat(t *testing.T) {
 			panic(r.Err)
 		}
 		big, _ := math.NewIntFromString("1180591620717411303424")
-		denoms := []string{"uinit", "ibc/27394FB092D2ECCD56123C74F36E4C1F926001CEADA9CA97EA622B25F41E5EB2", "Mixed/Case-denom.x_1"}
+		// one of the tokens carries a name that looks like a derived L2 denom (the host chain may itself be a rollup),
+		// and the bridge has registered pairs for "uinit" and for that token through earlier deposits
+		denoms := []string{"uinit", "ibc/27394FB092D2ECCD56123C74F36E4C1F926001CEADA9CA97EA622B25F41E5EB2", "Mixed/Case-denom.x_1", ref.L2Denom(1, "uinit")}
 		for _, d := range denoms {
 			e.Fund(ophosttypes.BridgeAddress(1), sdk.NewCoin(d, big))
+		}
+		e.Fund(prop.Addr, coinOf("uinit", 5), coinOf(ref.L2Denom(1, "uinit"), 5))
+		for _, d := range []string{"uinit", ref.L2Denom(1, "uinit")} {
+			if rapid.Bool().Draw(rt, "pairRegistered") {
+				if r := e.Deliver(ophosttypes.NewMsgInitiateTokenDeposit(prop.Str, 1, "l2-recipient", coinOf(d, 1), nil)); !r.OK() {
+					panic(r.Err)
+				}
+			}
 		}
 		hrp := sdk.GetConfig().GetBech32AccountAddrPrefix()
 		n := rapid.IntRange(1, 5).Draw(rt, "leaves")
@@ -668,6 +678,12 @@ func TestC17HandlerFormat(t *testing.T) {
 			}
 			if dup {
 				continue
+			}
+			// the same claim with one more proof element does not hash up to the committed root: refused
+			longer := claimMsg(sub.Str, tu, o, 1, i)
+			longer.WithdrawalProofs = append(longer.WithdrawalProofs, rapid.SampledFrom([][]byte{o.Storage[:], bytes.Repeat([]byte{0}, 32), bytes.Repeat([]byte{0xab}, 32)}).Draw(rt, "extra"))
+			if r := e.Deliver(longer); r.OK() {
+				rt.Fatalf("C17 violated: a claim whose proof list continues past the committed root (it folds to another value under the published rule) was accepted: seq=%d leaf %d of %d, %d proof items", tu.Seq, i, n, len(longer.WithdrawalProofs))
 			}
 			r := e.Deliver(claimMsg(sub.Str, tu, o, 1, i))
 			if !r.OK() {
